@@ -563,6 +563,9 @@ func (x *Exec) simple(st *State, fr *Frame, in ssa.Instruction) bool {
 		pt := in.Type().(*types.Pointer)
 		v := st.allocObject(in.Type(), pt.Elem())
 		x.setVal(st, fr, in, v)
+		if _, isArr := pt.Elem().Underlying().(*types.Array); !isArr && !allocEscapes(in) {
+			st.locals = append(st.locals, ptrOf(v))
+		}
 		if in.Comment != "" {
 			st.F(fr).allocs[in.Comment] = v
 		}
@@ -614,6 +617,7 @@ func (x *Exec) simple(st *State, fr *Frame, in ssa.Instruction) bool {
 		if v.K == KFunc {
 			x.noteClosureStore(st, fr, ptrOf(pv), v)
 		}
+		x.afterStore(st, fr, in, ptrOf(pv))
 		return true
 	case *ssa.FieldAddr:
 		pv := x.operand(st, fr, in.X)
@@ -1271,4 +1275,67 @@ func (x *Exec) closureObligations(st *State) {
 		}
 		x.emit(st, name, "structinv", and(goals...), "captured variables of the closure stored in "+cc.fd.Type+"."+cc.fd.Field+" have the declared values")
 	}
+}
+
+// allocEscapes reports whether the address of a local may reach code we do not
+// execute ourselves (then a "modifies all" callee may change it).
+var escapeCache = map[*ssa.Alloc]bool{}
+
+func allocEscapes(a *ssa.Alloc) bool {
+	if r, ok := escapeCache[a]; ok {
+		return r
+	}
+	escapeCache[a] = true // cycles: conservative
+	r := addrEscapes(a, 0)
+	escapeCache[a] = r
+	return r
+}
+
+func addrEscapes(v ssa.Value, depth int) bool {
+	if depth > 4 {
+		return true
+	}
+	refs := v.Referrers()
+	if refs == nil {
+		return true
+	}
+	for _, in := range *refs {
+		switch in := in.(type) {
+		case *ssa.DebugRef:
+		case *ssa.Store:
+			if in.Val == v {
+				return true // the address itself is stored somewhere
+			}
+		case *ssa.UnOp:
+			// load
+		case *ssa.FieldAddr:
+			if addrEscapes(in, depth+1) {
+				return true
+			}
+		case *ssa.MakeClosure:
+			// captured: fine as long as the closure is only deferred or called here
+			crefs := in.Referrers()
+			if crefs == nil {
+				return true
+			}
+			for _, ci := range *crefs {
+				switch ci := ci.(type) {
+				case *ssa.Defer:
+					if ci.Call.Value != in {
+						return true
+					}
+				case *ssa.Call:
+					if ci.Call.Value != in {
+						return true
+					}
+				case *ssa.DebugRef:
+				default:
+					return true
+				}
+			}
+		default:
+			return true
+		}
+	}
+	return false
 }
